@@ -132,7 +132,11 @@ func (ctx *baseTaskContext) addRequests(req *protoCommonV1.TaskRequest, physical
 // Complete completes the task with error(if execute failure).
 func (ctx *baseTaskContext) Complete(err error) {
 	ctx.mutex.Lock()
-	ctx.err = err
+	// keep the error which is set already(failure response of a node), completing the pipeline without error
+	// must not turn a failed query into a successful partial answer.
+	if err != nil || ctx.err == nil {
+		ctx.err = err
+	}
 	ctx.mutex.Unlock()
 
 	ctx.tryClose()
